@@ -24,13 +24,15 @@ def run():
     def validate(path, prop):
         return B.validate_chunk("TraceBoard.tla", "TraceBoard.cfg", path, prop, 0)
 
-    for prop in ("C01", "C03", "C04", "C06", "C08"):
+    for prop in ("C01", "C02", "C03", "C04", "C06", "C08"):
         r = validate(trace, prop)
         print("selftest B %s: pristine trace %s" % (prop, "accepted" if r["accepted"] else "REJECTED at %s" % r["line"]))
         bad += 0 if r["accepted"] else 1
     corruptions = {
         "C01": lambda e: e.update(legal=e["legal"][1:]),
         "C03": lambda e: e.update(chk=e["chk"] + [0] if 0 not in e["chk"] else e["chk"][1:]),
+        "C02": lambda e: e.update(mycr=(e["mycr"] + 1) % 4),                       # the side-relative rights accessor
+        "C03b": lambda e: e.update(kinds=[e["kinds"][1], e["kinds"][0]] + e["kinds"][2:] if e["kinds"][0] != e["kinds"][1] else [[]] + e["kinds"][1:]),
         "C04": lambda e: e.update(status="Stalemate" if e["status"] != "Stalemate" else "Ongoing"),
         "C06": lambda e: e.update(fen=e["fen"].replace(" w ", " b ") if " w " in e["fen"] else e["fen"].replace(" b ", " w ")),
         "C08": lambda e: e.update(hash=str(int(e["hash"]) ^ 1), hash_fresh=str(int(e["hash_fresh"]) ^ 1)),
@@ -43,7 +45,7 @@ def run():
         mod = lines[:target - 1] + [json.dumps(ev)] + lines[target:]
         path = os.path.join(outdir, "corrupt-%s.ndjson" % prop)
         open(path, "w").write("\n".join(mod) + "\n")
-        r = validate(path, prop)
+        r = validate(path, prop[:3])
         ok = (not r["accepted"]) and (prop == "C08" or r["line"] == target)
         if prop == "C08":
             # a single changed hash is only detectable when the position recurs or the fresh hash disagrees:
@@ -53,7 +55,7 @@ def run():
             ev2["hash_fresh"] = str(int(ev2["hash_fresh"]) ^ 1)
             mod2 = lines[:target - 1] + [json.dumps(ev2)] + lines[target:]
             open(path, "w").write("\n".join(mod2) + "\n")
-            r = validate(path, prop)
+            r = validate(path, prop[:3])
             ok = (not r["accepted"]) and r["line"] == target
         print("selftest B %s: corrupted line %d -> %s" % (prop, target, "rejected at line %s" % r["line"] if not r["accepted"] else "ACCEPTED (binding broken)"))
         bad += 0 if ok else 1
